@@ -9,3 +9,39 @@ impl Output {
 pub fn stray_writer(out: &mut Output, s: &str) {
     out.write_str(s);
 }
+
+/// C02.S3e control: a closure that can mark its argument safe is handed the raw text of a value that was not tested ...
+pub struct Value(pub String, pub bool);
+impl Value {
+    pub fn is_safe(&self) -> bool {
+        self.1
+    }
+    pub fn as_str(&self) -> &str {
+        &self.0
+    }
+    pub fn from_safe_string(s: String) -> Value {
+        Value(s, true)
+    }
+}
+
+pub fn shorten_marks_raw_text(value: &Value, end: &Value) -> Value {
+    let markup = value.is_safe() || end.is_safe();
+    let finish = |text: String| {
+        if markup {
+            Value::from_safe_string(text)
+        } else {
+            Value(text, false)
+        }
+    };
+    finish(value.as_str().to_string())
+}
+
+/// ... and the twin that hands it over under the test of that very value.
+pub fn shorten_keeps_safety(value: &Value) -> Value {
+    let finish = |text: String| Value::from_safe_string(text);
+    if value.is_safe() {
+        finish(value.as_str().to_string())
+    } else {
+        Value(value.as_str().to_string(), false)
+    }
+}
